@@ -600,14 +600,15 @@ class Block(object):
         from .wire import Input, Const, Output
         from .helperfuncs import get_stack, get_stacks
 
-        # check for valid LogicNets (and wires)
-        for net in self.logic:
-            self.sanity_check_net(net)
-
+        # every wire needs a bitwidth before the per-net bitwidth rules can be applied
         for w in self.wirevector_subset():
             if w.bitwidth is None:
                 raise PyrtlError(
                     'error, missing bitwidth for WireVector "%s" \n\n %s' % (w.name, get_stack(w)))
+
+        # check for valid LogicNets (and wires)
+        for net in self.logic:
+            self.sanity_check_net(net)
 
         # check for unique names
         wirevector_names_set = set(x.name for x in self.wirevector_set)
